@@ -1,0 +1,40 @@
+//go:build verif
+
+// Contracts for package numeric, checked by /verif/bin/govc (comment-only file).
+package numeric
+
+//@ fileprops C10
+
+//@ spec fn f2ibits(b uint64) int64 = ite(int64(b) < 0, int64(b) ^ 0x7fffffffffffffff, int64(b))
+//@ spec fn i2fbits(i int64) uint64 = ite(i < 0, uint64(i ^ 0x7fffffffffffffff), uint64(i))
+
+//@ func Float64ToInt64
+//@   mode bv fp
+//@   ensures result == f2ibits(bits(f))
+
+//@ func Int64ToFloat64
+//@   mode bv fp
+//@   ensures result == frombits(i2fbits(i))
+
+//@ lemma f2i_roundtrip bv fp: forall b uint64 :: i2fbits(f2ibits(b)) == b
+//@ lemma i2f_roundtrip bv fp: forall i int64 :: f2ibits(i2fbits(i)) == i
+//@ lemma f2i_order bv fp: forall x uint64, y uint64 :: !isNaN(frombits(x)) && !isNaN(frombits(y)) ==>
+//@    ((frombits(x) < frombits(y) || (isNegZero(frombits(x)) && isPosZero(frombits(y)))) <==> f2ibits(x) < f2ibits(y))
+
+//@ spec fn nchars(shift uint) uint = (63 - shift)/7 + 1
+//@ spec fn sortable(in int64) uint64 = uint64(in) ^ 0x8000000000000000
+//@ spec fn digit(in int64, shift uint, j uint) byte = byte(((sortable(in) >> shift) >> (7*(nchars(shift) - j))) & 0x7f)
+
+//@ func NewPrefixCodedInt64Prealloc
+//@   mode bv
+//@   nopanic
+//@   ensures shift > 63 ==> err != nil && rv == nil
+//@   ensures shift <= 63 ==> err == nil && len(rv) == int64(nchars(shift)) + 1
+//@   ensures shift <= 63 ==> rv[0] == 0x20 + byte(shift)
+//@   ensures shift <= 63 ==> (forall j uint :: 1 <= j && j <= nchars(shift) ==> rv[j] == digit(in, shift, j))
+//@   loop 1
+//@     invariant shift <= 63 && nChars <= nchars(shift) && len(rv) == int64(nchars(shift)) + 1
+//@     invariant rv[0] == 0x20 + byte(shift)
+//@     invariant sortableBits == int64((sortable(in) >> shift) >> (7 * (nchars(shift) - nChars)))
+//@     invariant forall j uint :: nChars < j && j <= nchars(shift) ==> rv[j] == digit(in, shift, j)
+//@     decreases nChars
